@@ -427,28 +427,49 @@ func opExpr(mode uint, src []byte) (string, string) {
 	return judge(src, mode, ps, 1, func(o outcome) bool { return o.nerr == 0 })
 }
 
+// showGroups prints comment groups (stream indices) explicitly when that is short, else as
+// <groups>/<comments>/<rolling hash> (the kit cuts output lines at 300 bytes).
+func showGroups(gs [][]int) string {
+	var b strings.Builder
+	nc := 0
+	var h uint64
+	for gi, g := range gs {
+		if gi > 0 {
+			b.WriteByte('|')
+		}
+		h = (h * 31) % 4294967291
+		for ci, i := range g {
+			if ci > 0 {
+				b.WriteByte('.')
+			}
+			b.WriteString(strconv.Itoa(i))
+			nc++
+			h = (h*31 + uint64(i) + 1) % 4294967291
+		}
+	}
+	if b.Len() <= 100 {
+		return b.String()
+	}
+	return fmt.Sprintf("%d/%d/%d", len(gs), nc, h)
+}
+
 func groupsOf(f *ast.File, idxOf map[int]int, base int) string {
 	if f == nil {
 		return ""
 	}
-	var b strings.Builder
-	for gi, g := range f.Comments {
-		if gi > 0 {
-			b.WriteByte('|')
-		}
-		for ci, c := range g.List {
-			if ci > 0 {
-				b.WriteByte('.')
-			}
+	var gs [][]int
+	for _, g := range f.Comments {
+		var is []int
+		for _, c := range g.List {
 			i, ok := idxOf[int(c.Slash)-base]
 			if !ok {
-				b.WriteByte('?')
-			} else {
-				b.WriteString(strconv.Itoa(i))
+				i = 1 << 30
 			}
+			is = append(is, i)
 		}
+		gs = append(gs, is)
 	}
-	return b.String()
+	return showGroups(gs)
 }
 
 func opScan(mode uint, src []byte, stream string, literal bool) (string, string) {
